@@ -18,7 +18,7 @@ ASSUMPTIONS = ["models/gear102.py reads IEC 62386-102:2014 9.14/11.7: RANDOMISE,
                "a driver transmits send-twice commands twice and wraps collisions as BackwardFrameError"]
 EXHAUSTIVE = {"quick": False, "thorough": False}
 REQUIRED_ANCHORS = {"all": ["runs_completed", "clash_restarts", "no_addresses_left", "found_at_0xffffff",
-                            "program_failure_raised", "Frame.__setitem__"]}
+                            "program_failure_raised", "Frame.__setitem__", "interleaved_pairs"]}
 SHARD_TIMEOUT = {"quick": 600, "thorough": 3000}
 
 SCHEDULES = ["uniform", "tiny", "extremes", "pair_clash", "reuse_earlier", "withdrawn_redraw", "dense", "long_clash"]
@@ -27,7 +27,29 @@ SCHEDULES = ["uniform", "tiny", "extremes", "pair_clash", "reuse_earlier", "with
 def plan(tier, seed):
     n = 400 if tier == "quick" else 20000
     parts = 16 if tier == "quick" else 64
-    return [{"part": p, "n": n // parts} for p in range(parts)]
+    return [{"part": p, "n": n // parts} for p in range(parts)] + [{"part": "interleaved", "n": 30 if tier == "quick" else 600}]
+
+
+def run_interleaved(desc, seed, res):
+    """Two installations commissioned from one process: the two sequences are advanced in turns."""
+    import random
+    from props import pairs
+    from dali.sequences import Commissioning
+    from models.gear102 import Gear
+    from models.bus import Bus
+
+    def mk(rr):
+        units = []
+        for k in range(rr.randint(1, 5)):
+            rk = random.Random(rr.getrandbits(32))
+            units.append(Gear(short=(None if rr.random() < 0.7 else rr.randrange(64)), draw=lambda u, rk=rk: rk.getrandbits(24), name=k))
+        kw = {}
+        if rr.random() < 0.5:
+            kw["available_addresses"] = sorted(rr.sample(range(64), rr.randint(1, 20)))
+        if rr.random() < 0.3:
+            kw["readdress"] = True
+        return Bus(units, bound=40000), Commissioning(**kw), lambda: [u.short for u in units]
+    pairs.differential(res, "C07", rng(seed, "C07", "interleaved"), {"Commissioning": mk}, desc["n"])
 
 
 class Scheduler:
@@ -277,6 +299,9 @@ def run_shard(desc, tier, seed):
             make_case(r)     # consume the same draws as the original generation
             run_case(case, r, res)
             res.evaluations += 1
+        return res
+    if desc["part"] == "interleaved":
+        run_interleaved(desc, seed, res)
         return res
     for i in range(desc["n"]):
         r = rng(seed, "C07", desc["part"], i)
